@@ -139,9 +139,20 @@ def forget_path(path):
     instead of diff-parsing against an unrelated earlier text)."""
     import parso.cache
     for per_grammar in parso.cache.parser_cache.values():
+        if path is None:
+            per_grammar.pop(None, None)     # all path-less Scripts share this slot (and diff-parse against it)
+            continue
         per_grammar.pop(str(path), None)
         try:
             from pathlib import Path
             per_grammar.pop(Path(path), None)
         except Exception:
             pass
+
+
+def fresh_script(code, path=None, **kw):
+    """jedi.Script without editing history: the parser-cache slot of `path` (None included) is dropped first, so
+    the text is parsed from scratch instead of diff-parsed against whatever the previous case left there.
+    (History dependence is the subject of C08/C16 only.)"""
+    forget_path(path)
+    return jedi_boot().Script(code, path=path, **kw)
